@@ -41,7 +41,7 @@ type ProgCfg struct {
 
 var DefaultNames = []string{"a", "b", "c", "d", "e"}
 var DefaultTypes = []string{"s", "t", "u"}
-var DefaultBNames = []string{"", "", `"a"`, `"b"`, `"a b"`, `"\x41"`, `"q\"r"`, `"é"`, `"x.y"`}
+var DefaultBNames = []string{"", "", `"a"`, `"b"`, `"a b"`, `"\x41"`, `"q\"r"`, `"é"`, `"x.y"`, `" "`, `"NAME"`}
 
 func DefaultCfg() ProgCfg {
 	return ProgCfg{
